@@ -7,7 +7,7 @@ everything under /verif/seeded/<PROP>-<VARIANT>/ (patch.diff, demo.cpp, README.m
 import json, os, shutil, subprocess, sys, time
 
 VERIF = os.path.dirname(os.path.dirname(os.path.abspath(__file__)))
-ALL = "C01 C02 C03 C04 C05 C06 C07 C08 C09 C10 C11 C12 C13 C16 C17 C19 C20".split()
+ALL = "C01 C02 C03 C04 C05 C06 C07 C08 C09 C10 C11 C12 C13 C15 C16 C17 C19 C20".split()
 
 
 def sh(cmd, **kw):
